@@ -1,6 +1,6 @@
 (* C08 - An interrupted or failed sync can always be repaired by running it again.  Statements only. *)
 From RJ Require Import Base.Prelude Base.OrderedPlan Model.Settings Model.Core Model.Fs Model.Paths Model.Sync Model.SyncTop
-  Spec.PlanSpec Spec.Mirror Proofs.ExecProofs Proofs.MirrorProofs Proofs.InstanceProofs Proofs.CrashProofs Proofs.CrashMain.
+  Spec.PlanSpec Spec.Mirror Proofs.ExecProofs Proofs.MirrorProofs Proofs.InstanceProofs Proofs.CrashProofs Proofs.CrashMain Proofs.WfProofs Proofs.RepairMain.
 
 (* The invariant (Proofs/CrashProofs.v): on the destination a file that carries a SET time - as opposed
    to the time of its last write - is either the very file that was there before the run, or holds exactly
@@ -77,6 +77,33 @@ Theorem C08_executable : forall cfg S D a fw ans bits ls ld ft,
    Good S D (r_dest (run_orders_w cfg S D a fw ans bits ls ld ft))).
 Proof. intros. exact (crash_safe now_far normalize_unix chunk_real chunk_real_ok cfg S (world D a fw) ans bits ls ld ft eq_refl). Qed.
 
+(* Every such state is moreover a well-formed tree (ancestors of every entry are folders, one node per
+   path), so the NEXT run's listing of it is a valid listing and nothing has to be assumed about it: *)
+Theorem C08_states_well_formed : forall cfg S D a fw ans bits ls ld ft,
+  unique_keys D -> wf_fs D ->
+  (forall s, In s (sync_kill_states now_far normalize_unix chunk_real cfg S (world D a fw) ans bits ls ld ft) ->
+     wf_fs (d_fs s) /\ unique_keys (d_fs s)) /\
+  (wf_fs (d_fs (r_dest (run_orders_w cfg S D a fw ans bits ls ld ft))) /\
+   unique_keys (d_fs (r_dest (run_orders_w cfg S D a fw ans bits ls ld ft)))).
+Proof. exact kill_states_well_formed. Qed.
+
+(* the closed statement for the executable model: first run arbitrary (any listings, interleaving, answers,
+   faults, killed anywhere or run to its end), second run = the executable sync on what was left. *)
+Theorem C08_rerun_executable : forall cfg S D a fw ans bits ls ld ft s,
+  unique_keys D -> wf_fs D ->
+  (In s (sync_kill_states now_far normalize_unix chunk_real cfg S (world D a fw) ans bits ls ld ft) \/
+   s = r_dest (run_orders_w cfg S D a fw ans bits ls ld ft)) ->
+  no_through (d_events s) ->
+  forall cfg2 ans2 bits2 ex ft2,
+  unique_keys S -> wf_fs S -> src_times_set S -> links_utf8 S ->
+  let r2 := run_top cfg2 S (d_fs s) (d_anc s) ans2 bits2 ex ft2 in
+  r_ok r2 = true -> r_skipped r2 = [] -> r_root_skipped r2 = false -> cf_dry cfg2 = false -> cf_fl cfg2 = Unix ->
+  mirror now_far (excl_incl ex) normalize_unix (cf_diff cfg2) Unix S (d_fs s) (d_fs (r_dest r2)) /\
+  forall p t b, takes_part (excl_incl ex) S p -> fget S p = Some (NFile (TSet t) b) -> (t < 4000000000000000000)%Z ->
+    fget (d_fs (r_dest r2)) p = Some (NFile (TSet t) b) \/
+    exists b0, fget D p = Some (NFile (TSet t) b0) /\ fget (d_fs (r_dest r2)) p = Some (NFile (TSet t) b0).
+Proof. exact rerun_repairs_executable. Qed.
+
 (* Non-vacuity and the F4 scenario: a two-chunk file whose first write fails while the boss has already
    queued the last chunk (lag 3).  The last chunk is refused, the run fails, and the destination keeps an
    unstamped partial file; among the kill states there are states with a partially written file. *)
@@ -101,3 +128,5 @@ Print Assumptions C08_chunk_step.
 Print Assumptions C08_no_damaged_file_passes.
 Print Assumptions C08_rerun_repairs.
 Print Assumptions C08_executable.
+Print Assumptions C08_states_well_formed.
+Print Assumptions C08_rerun_executable.
